@@ -46,6 +46,8 @@ class Log:
                     self.events.append({"t": "P", "name": w[1], "hex": w[2], "ln": ln})
                 elif t == "B":
                     self.events.append({"t": "B", "tid": int(w[1]), "kind": w[2], "obj": w[3] if len(w) > 3 else "", "ln": ln})
+                elif t == "W" and len(w) >= 4 and w[1].isdigit():
+                    self.events.append({"t": "W", "tid": int(w[1]), "kind": w[2], "obj": w[3], "ln": ln})
 
     def off(self, struct, field):
         return self.offs[(struct, field)][0]
